@@ -168,7 +168,9 @@ func checkC10(r *harness.Run) harness.Coverage {
 	}
 	var byExprs []exprCase
 	for _, fn := range []string{"sort_by", "max_by", "min_by"} {
-		for _, body := range []string{"&k", "&@", "&t", "&to_string(k)", "&nosuch(@)"} {
+		for _, body := range []string{"&k", "&@", "&t", "&to_string(k)", "&nosuch(@)",
+			// a by-function inside the key expression of another (per-call failure state must not be shared), an erroring call inside the key
+			"&sort_by([k, k], &@)[0]", "&max_by([k], &@)", "&min_by([t, k], &to_string(@))", "&abs(k)", "&length(k)", "&sort([k, k])[0]"} {
 			byExprs = append(byExprs, exprFromText(fn+"(@, "+body+")"))
 		}
 	}
